@@ -470,9 +470,12 @@ class Interp:
         return B.new_list(self, [self.eval(x) for x in e.elts])
 
     def ev_Dict(self, e):
-        if e.keys:
-            raise Unsupported('non-empty dict literal')
-        return B.new_dict(self)
+        d = B.new_dict(self)
+        for k, v in zip(e.keys, e.values):
+            if k is None:
+                raise Unsupported('dict unpacking in a literal')
+            B.setitem(self, d, self.eval(k), self.eval(v))
+        return d
 
     def ev_IfExp(self, e):
         cond = self.truth(self.eval(e.test))
@@ -689,6 +692,12 @@ class Interp:
                 cav, _ = self.src.find_class_attr(pt, attr)
                 if cav is not None:
                     return self.class_attr(SClass(pt), attr)
+                if attr not in self.src.init_attrs(pt) and self.src.find_method(pt, '__getattr__') is not None \
+                        and attr not in self.w.dynamic_attrs.get(pt, ()) and not attr.startswith('$') \
+                        and (obj.e.sexpr(), attr) not in getattr(c, 'world_set_attrs', ()):
+                    # attribute lookup failed the normal way: Python falls back to __getattr__(name)
+                    fn = self.w_method(self.src.find_method(pt, '__getattr__')).bind(obj)
+                    return self.call_func(fn, [attr], {})
                 self.check_defined(obj, attr)
                 self.check_guard(obj, attr, 'read')
                 if attr in self.src.namedtuples:
@@ -877,6 +886,8 @@ class Interp:
                 if fi is not None:
                     fn = self.w_method(fi)
                     return fn if getattr(fn, 'staticmethod', False) else fn.bind(obj)
+                if attr in ('values', 'keys', 'items') and B.is_odict(self, obj):
+                    return SBuiltin('odict.' + attr, obj)
                 # a data attribute holding a callable
                 return self.get_attr(obj, attr, node)
             if B.base_type(pt) in B.BUILTIN_TYPES or (pt and pt.startswith('nt:')):
